@@ -54,6 +54,11 @@ CLAIMED = {
    text="Role-typed generated programs are rendered against canonical bindings and against bindings in which every node independently takes another representation the statement names (numeric width, typed slice/array/map, ordered map, []byte, Drop at any depth incl. Drop-of-Drop, pointer); every numeric value x width x operator and every filter x universe value x {Drop, nested Drop, pointer, Drop-wrapped elements} as receiver and as argument must render as the unwrapped/canonical form.",
    note="Trusted: hx.Spec.Realise builds equal logical values. Representations are only used in the positions the statement names (numeric variables not as index/limit/offset, ordered map only lookup and size, []byte only printed, arrays not where a string is expected); type/inspect/json report the Go value by design and are unspecified.",
    ref="DESIGN.md 7.C18"),
+ "C13": dict(
+   technique="property-based testing: metamorphic relations between the hyphen-free and the hyphenated spelling of rapid-generated templates, exhaustive over the hyphen subsets of each template (2^k for k <= 10)",
+   text="For generated templates with whitespace-rich text and values, every subset of hyphen slots (all 2^k when k <= 10, samples beyond) is rendered and related to the hyphen-free render: equal modulo whitespace, obtainable by deleting whitespace only, and - when every hyphen faces literal text - equal to the template with exactly that adjacent whitespace deleted.",
+   note="All three relations are between executions of the implementation; the harness only decides statically which text token a hyphen faces (after merging adjacent text). Hyphens on the inner side of raw/comment are excluded from the strong relation (C05 governs raw bodies).",
+   ref="DESIGN.md 7.C13"),
 }
 
 REASON_PENDING = "check not built yet in this snapshot of /verif (planned: see DESIGN.md section 7); nothing is claimed for it"
